@@ -12,6 +12,9 @@ import (
 	"seehuhn.de/go/sfnt/cff"
 	"seehuhn.de/go/sfnt/glyf"
 	"seehuhn.de/go/sfnt/glyph"
+	"seehuhn.de/go/sfnt/opentype/coverage"
+	"seehuhn.de/go/sfnt/opentype/gdef"
+	"seehuhn.de/go/sfnt/opentype/gtab"
 	"seehuhn.de/go/sfnt/zzverif/simgen"
 	"seehuhn.de/go/sfnt/zzverif/simhook"
 	"seehuhn.de/go/sfnt/zzverif/simio"
@@ -243,6 +246,66 @@ func kindOf(f *sfnt.Font) string {
 
 // lossless: incidental oracle for constructed fonts (fields whose normal
 // form is the identity).
+// actsAlike applies every lookup of the written and of the re-read table to
+// the same glyph sequences.
+func actsAlike(c *wk.Case, what string, a, b *gtab.Info, gd *gdef.Table, n int) {
+	if a == nil || len(a.LookupList) == 0 {
+		return
+	}
+	if b == nil {
+		c.Fail("lossless", what, "constructed font: the %s table (%d lookups) is gone after Write/Read", what, len(a.LookupList))
+	}
+	if len(a.LookupList) != len(b.LookupList) {
+		c.Fail("lossless", what+"/lookup-count", "constructed font: %d %s lookups were written, %d came back", len(a.LookupList), what, len(b.LookupList))
+	}
+	hot := simgen.CoveredGlyphs(a)
+	t := c.T
+	// compare with the normal form of what was written (one ValueFormat2 per
+	// pair adjustment subtable: see simgen.NormalPairs)
+	aList := simgen.NormalPairs(a.LookupList)
+	for k := 0; k < 8; k++ {
+		// one lookup at a time or all of them, in list order
+		var lookups []gtab.LookupIndex
+		if t.Chance(1, 2) {
+			lookups = []gtab.LookupIndex{gtab.LookupIndex(t.Draw(len(a.LookupList)))}
+		} else {
+			for i := range a.LookupList {
+				lookups = append(lookups, gtab.LookupIndex(i))
+			}
+		}
+		seq := make([]glyph.Info, t.Range(1, 10))
+		for i := range seq {
+			gid := glyph.ID(t.Draw(n))
+			if len(hot) > 0 && !t.Chance(1, 5) {
+				gid = hot[t.Draw(len(hot))]
+			}
+			seq[i] = glyph.Info{GID: gid, Text: []rune{rune('a' + i)}}
+		}
+		var want, got []glyph.Info
+		p1 := c.Guard(func() { want = gtab.NewContext(aList, gd, lookups).Apply(append([]glyph.Info(nil), seq...)) })
+		p2 := c.Guard(func() { got = gtab.NewContext(b.LookupList, gd, lookups).Apply(append([]glyph.Info(nil), seq...)) })
+		if p1 != nil || p2 != nil {
+			c.Count("lookup_application_panicked_(C07,_not_judged_here)", 1)
+			continue
+		}
+		c.Count("lookup_behaviour_comparisons", 1)
+		if d := simgen.DeepDiff(want, got, 0, false); d != "" {
+			var in []glyph.ID
+			for _, x := range seq {
+				in = append(in, x.GID)
+			}
+			tp := a.LookupList[lookups[0]].Meta.LookupType
+			hint := ""
+			for _, l := range lookups {
+				if sd := simgen.DeepDiff(aList[l], b.LookupList[l], 0, false); sd != "" {
+					hint += fmt.Sprintf("\n  lookup %d, written vs re-read: %s", l, sd)
+				}
+			}
+			c.Fail("lossless", fmt.Sprintf("%s/behaviour/type%d", what, tp), "constructed font: the %s lookups %v act differently after Write/Read on the glyph sequence %v: %s%s", what, lookups, in, d, hint)
+		}
+	}
+}
+
 func lossless(c *wk.Case, f *sfnt.Font, b []byte) {
 	g := read(c, "constructed", b, 0, true)
 	fail := func(field string, format string, args ...any) {
@@ -351,6 +414,10 @@ func lossless(c *wk.Case, f *sfnt.Font, b []byte) {
 			fail("GPOS.FeatureList", "%s", d)
 		}
 	}
+	// the lookups that come back must act like the ones that were written
+	// (behaviour, because the encoders may choose other subtable shapes)
+	actsAlike(c, "GSUB", f.Gsub, g.Gsub, f.Gdef, f.NumGlyphs())
+	actsAlike(c, "GPOS", f.Gpos, g.Gpos, f.Gdef, f.NumGlyphs())
 	c.Count("lossless_checked_(incidental)", 1)
 }
 
@@ -369,7 +436,29 @@ func run(c *wk.Case) {
 		}
 		f := simgen.GenFont(t, kind, size)
 		big := false
-		if t.Chance(2, 3) {
+		if mode == 0 && t.Chance(1, 25) {
+			// the top of the glyph-id range (TrueType, mostly blank glyphs),
+			// with lookups that prefer glyph ids around 0xD800 and 0xFFFE
+			f = simgen.GenHugeFont(t)
+			kind = simgen.KindTrueType
+			hot := simgen.HighGlyphs(t, f.NumGlyphs())
+			simgen.AddLayoutTablesHot(t, f, hot)
+			if f.Gsub != nil && len(hot) > 0 && t.Chance(1, 2) {
+				// a decomposition lookup over those glyphs (short
+				// replacement sequences, many of them alike)
+				s := &gtab.Gsub2_1{Cov: coverage.Table{}}
+				for i, k := 0, t.Range(3, 8); i < k; i++ {
+					s.Cov[glyph.ID(20+3*i)] = i
+					var repl []glyph.ID
+					for j := t.Range(1, 2); j > 0; j-- {
+						repl = append(repl, hot[t.Draw(len(hot))])
+					}
+					s.Repl = append(s.Repl, repl)
+				}
+				f.Gsub.LookupList = append(f.Gsub.LookupList, &gtab.LookupTable{Meta: &gtab.LookupMetaInfo{LookupType: 2}, Subtables: []gtab.Subtable{s}})
+			}
+			c.Count("fonts_with_more_than_55_300_glyphs", 1)
+		} else if t.Chance(2, 3) {
 			simgen.AddLayoutTables(t, f)
 		}
 		if t.Chance(1, 60) {
